@@ -52,12 +52,21 @@ structure St where
   declGlobal : List String   -- names declared `global` in the running function
   out : List String
   imports : List String := []   -- the import events so far, in order (module and bound name)
+  localNames : List String := []  -- the names that are local to the running function: its parameters and every name its body binds
   deriving Repr
 
+/-- is `x` a local variable of the running function (decided statically, as the compiler does) -/
+def St.isLocal (s : St) (x : String) : Bool :=
+  s.locals.isSome && !s.declGlobal.contains x && s.localNames.contains x
+
+/-- name lookup: a local name is looked up in the locals only (unbound: `UnboundLocalError`), any other name in the globals -/
 def St.lookup (s : St) (x : String) : Option Val :=
   match s.locals with
-  | some l => (match l.get x with | some v => some v | none => s.globals.get x)
+  | some l => if !s.declGlobal.contains x && s.localNames.contains x then l.get x else s.globals.get x
   | none => s.globals.get x
+
+/-- the exception an unbound name raises -/
+def St.unbound (s : St) (x : String) : String := if s.isLocal x then "UnboundLocalError" else "NameError"
 
 def St.assign (s : St) (x : String) (v : Val) : St :=
   match s.locals with
@@ -117,7 +126,7 @@ def evalE (s : St) : Expr → Option (Except String Val)
     else (match s.lookup x with
       | some (.mod _) => none             -- what an import bound is opaque: using it is outside the core
       | some v => some (.ok v)
-      | none => some (.error "NameError"))
+      | none => some (.error (s.unbound x)))
   | .unaryOp .not_ e => (match evalE s e with
       | some (.ok v) => some (.ok (.bool (!v.truthy)))
       | r => r)
@@ -298,6 +307,26 @@ def excKind : Option Expr → ExcPat
   | some (.tuple es) => (match nameList es with | some ns => .names ns | none => .unknown)
   | some e => (match nameOf e with | some (x, _) => .names [x] | none => .unknown)
 
+/-- the builtin exception classes strictly between a builtin exception and `Exception` -/
+def excParents : String → List String
+  | "ZeroDivisionError" => ["ArithmeticError"]
+  | "OverflowError" => ["ArithmeticError"]
+  | "FloatingPointError" => ["ArithmeticError"]
+  | "KeyError" => ["LookupError"]
+  | "IndexError" => ["LookupError"]
+  | "UnboundLocalError" => ["NameError"]
+  | "NotImplementedError" => ["RuntimeError"]
+  | "RecursionError" => ["RuntimeError"]
+  | "ModuleNotFoundError" => ["ImportError"]
+  | "FileNotFoundError" => ["OSError"]
+  | "PermissionError" => ["OSError"]
+  | "TimeoutError" => ["OSError"]
+  | "UnicodeError" => ["ValueError"]
+  | "UnicodeDecodeError" => ["UnicodeError", "ValueError"]
+  | "UnicodeEncodeError" => ["UnicodeError", "ValueError"]
+  | "IndentationError" => ["SyntaxError"]
+  | _ => []
+
 /-- does a handler (type pattern, `as` name) catch the raised name: `some true` / `some false`; `none` = outside the
     core (binding the exception object, a type that is not a name or a tuple of names).  Exception classes are
     matched by name; `Exception` / `BaseException` catch everything the core can raise. -/
@@ -307,7 +336,7 @@ def catches (p : ExcPat) (asName : Option String) (x : String) : Option Bool :=
   | none =>
     match p with
     | .any => some true
-    | .names ns => some (ns.contains x || ns.contains "Exception" || ns.contains "BaseException")
+    | .names ns => some (ns.contains x || (excParents x).any ns.contains || ns.contains "Exception" || ns.contains "BaseException")
     | .unknown => none
 
 /-- the state an outcome carries (`none` for stuck / timeout) -/
@@ -370,6 +399,84 @@ def isAssertStmt : Stmt → Bool
 def asCall : Res Flow → Res Flow
   | .ok (.normal s) => .ok (.returned .none s)
   | r => r
+
+/-! ### Which names are local to a function: the binding constructs of the core
+
+The compiler decides statically which names are local to a function: every name the body binds anywhere
+(assignment, loop variable, import) unless declared `global`.  `bindTop` computes that list for a body made of
+core statements and answers `none` for a body that contains anything else (a nested `def`, `with`, `del`, an
+assignment expression, a `global` statement that is not at the top level, …): calling such a function is
+outside the core. -/
+
+/-- the expression forms the core evaluates: none of them binds a name or opens a scope -/
+def coreE : Expr → Bool
+  | .constant _ => true
+  | .name _ _ => true
+  | .unaryOp _ e => coreE e
+  | .binOp l _ r => coreE l && coreE r
+  | .compare l [_] [r] => coreE l && coreE r
+  | .boolOp _ [a, b] => coreE a && coreE b
+  | .ifExp c a b => coreE c && coreE a && coreE b
+  | _ => false
+
+/-- an expression, or a call `f(e, …)` of a name with core arguments (statement level only) -/
+def coreX : Expr → Bool
+  | .call (.name _ _) args [] => args.all coreE
+  | e => coreE e
+
+def aliasBound (a : Alias) : String := a.asname.getD (firstComponent a.name)
+def fromBound (a : Alias) : String := a.asname.getD a.name
+
+/-- both, appended -/
+def oapp (a b : Option (List String)) : Option (List String) :=
+  match a, b with
+  | some x, some y => some (x ++ y)
+  | _, _ => none
+
+def oguard (c : Bool) (r : Option (List String)) : Option (List String) := if c then r else none
+
+mutual
+/-- the names a core statement binds (`none`: not a core statement) -/
+def bindS : Stmt → Option (List String)
+  | .pass => some []
+  | .break_ => some []
+  | .continue_ => some []
+  | .return_ none => some []
+  | .return_ (some e) => oguard (coreE e) (some [])
+  | .expr e => oguard (coreX e) (some [])
+  | .assign ts e => (match assignTarget ts with | some x => oguard (coreX e) (some [x]) | none => none)
+  | .augAssign tg _ e => (match nameOf tg with | some (x, _) => oguard (coreE e) (some [x]) | none => none)
+  | .assert_ c m => oguard (coreE c && (match m with | some e => coreE e | none => true)) (some [])
+  | .import_ names => some (names.map aliasBound)
+  | .importFrom _ names _ => oguard (!hasStar names) (some (names.map fromBound))
+  | .raise_ e c => oguard (raiseName e c).isSome (some [])
+  | .if_ c b o => oguard (coreE c) (oapp (bindL b) (bindL o))
+  | .while_ c b o => oguard (coreE c) (oapp (bindL b) (bindL o))
+  | .for_ false tg it b o =>
+    (match forRange tg it with
+     | some (x, e) => oguard (coreE e) (oapp (some [x]) (oapp (bindL b) (bindL o)))
+     | none => none)
+  | .try_ false b hs o f => oapp (bindL b) (oapp (bindH hs) (oapp (bindL o) (bindL f)))
+  | _ => none
+def bindL : List Stmt → Option (List String)
+  | [] => some []
+  | st :: rest => oapp (bindS st) (bindL rest)
+def bindH : List Handler → Option (List String)
+  | [] => some []
+  | .mk ty nm body :: rest => oguard (nm.isNone && excKind ty != .unknown) (oapp (bindL body) (bindH rest))
+end
+
+/-- the bound names as a set: without duplicates, sorted (only membership matters to the semantics) -/
+def insertName (x : String) : List String → List String
+  | [] => [x]
+  | y :: ys => if x == y then y :: ys else if x < y then x :: y :: ys else y :: insertName x ys
+def canonNames (l : List String) : List String := l.foldr insertName []
+
+/-- a function body: `global` declarations are allowed at its top level -/
+def bindTop : List Stmt → Option (List String)
+  | [] => some []
+  | .global _ :: rest => bindTop rest
+  | st :: rest => oapp (bindS st) (bindTop rest)
 
 mutual
 def exec1 (ft : RunEnv) (fuel : Nat) (s : St) : Stmt → Res Flow
@@ -447,11 +554,15 @@ def callFn (ft : RunEnv) (fuel : Nat) (s : St) (f : String) (args : List Expr) (
   | some (.ok vs) =>
     (match ft.ft.lookup f with
      | some (params, body) =>
+       match bindTop body with
+       | none => .stuck               -- the body is outside the core
+       | some bound =>
        if params.length != vs.length then .raised "TypeError" s
        else match fuel with
          | 0 => .timeout
          | n + 1 =>
-           let inner : St := { globals := s.globals, locals := some (params.zip vs), declGlobal := declaredGlobals body, out := s.out, imports := s.imports }
+           let inner : St := { globals := s.globals, locals := some (params.zip vs), declGlobal := declaredGlobals body, out := s.out,
+                               imports := s.imports, localNames := params ++ canonNames bound }
            match asCall (execL ft n inner body) with
            | .ok (.returned v s') =>
              let back : St := { s with globals := s'.globals, out := s'.out, imports := s'.imports }
@@ -499,7 +610,7 @@ def observe (r : Res Flow) (fallback : St) : Obs :=
   | .stuck => ⟨fallback.out, "stuck", fallback.globals, fallback.imports⟩
   | .timeout => ⟨fallback.out, "timeout", fallback.globals, fallback.imports⟩
 
-def St.init : St := ⟨[], none, [], [], []⟩
+def St.init : St := ⟨[], none, [], [], [], []⟩
 
 def run (fuel : Nat) (m : Module) : Obs := observe (execL ⟨collect m.body, false⟩ fuel St.init m.body) St.init
 
